@@ -591,6 +591,9 @@ func BuildFromAliasedTable(query *Query, as string, expr sqlparser.SimpleTableEx
 		}
 	case *sqlparser.DerivedTable:
 		{
+			// a derived table is known by its alias, like a named table; without
+			// it a join of two derived tables cannot tell its sides apart
+			query.ident = as
 			subquery, err := Prepare(query.data, expr.Select, query.options)
 			if err != nil {
 				return err
